@@ -407,26 +407,26 @@ Definition comb_of (c : N) : option comb :=
   if N.eqb c 32 then Some CDesc else if N.eqb c 62 then Some CChild
   else if N.eqb c 43 then Some CAdj else if N.eqb c 126 then Some CSib else None.
 
-Fixpoint p_group (fuel : nat) (i : nat) {struct fuel} : res (pr (list sel)) :=      (* parser.go:875 *)
+Fixpoint p_group (fuel : nat) (acc_pe : bool) (i : nat) {struct fuel} : res (pr (list sel)) :=      (* parser.go:875 *)
   match fuel with
   | O => OutOfFuel
-  | S f => bindP (p_selector f i) (fun cur i => p_group_loop f i [cur])
+  | S f => bindP (p_selector f acc_pe i) (fun cur i => p_group_loop f acc_pe i [cur])
   end
-with p_group_loop (fuel : nat) (i : nat) (acc : list sel) {struct fuel} : res (pr (list sel)) :=   (* :882 *)
+with p_group_loop (fuel : nat) (acc_pe : bool) (i : nat) (acc : list sel) {struct fuel} : res (pr (list sel)) :=   (* :882 *)
   match fuel with
   | O => OutOfFuel
   | S f =>
       if len <=? i then Ok (POk acc i) else
       let* c := at_ 883 i in
       if negb (N.eqb c 44) then Ok (POk acc i) else
-      bindP (p_selector f (S i)) (fun c i => p_group_loop f i (acc ++ [c]))
+      bindP (p_selector f acc_pe (S i)) (fun c i => p_group_loop f acc_pe i (acc ++ [c]))
   end
-with p_selector (fuel : nat) (i : nat) {struct fuel} : res (pr sel) :=               (* :833 *)
+with p_selector (fuel : nat) (acc_pe : bool) (i : nat) {struct fuel} : res (pr sel) :=               (* :833 *)
   match fuel with
   | O => OutOfFuel
-  | S f => bindP (p_seq f (skip_ws i)) (fun r i => p_selector_loop f i r)
+  | S f => bindP (p_seq f acc_pe (skip_ws i)) (fun r i => p_selector_loop f acc_pe i r)
   end
-with p_selector_loop (fuel : nat) (i : nat) (result : sel) {struct fuel} : res (pr sel) :=   (* :840 *)
+with p_selector_loop (fuel : nat) (acc_pe : bool) (i : nat) (result : sel) {struct fuel} : res (pr sel) :=   (* :840 *)
   match fuel with
   | O => OutOfFuel
   | S f =>
@@ -438,10 +438,10 @@ with p_selector_loop (fuel : nat) (i : nat) (result : sel) {struct fuel} : res (
       let '(cb, j) := if N.eqb c 43 || N.eqb c 62 || N.eqb c 126 then (c, skip_ws (S j)) else (comb0, j) in
       match comb_of cb with
       | None => Ok (POk result j)                           (* combinator == 0 *)
-      | Some cm => bindP (p_seq f j) (fun c i => p_selector_loop f i (SCombined result cm c))
+      | Some cm => bindP (p_seq f acc_pe j) (fun c i => p_selector_loop f acc_pe i (SCombined result cm c))
       end
   end
-with p_seq (fuel : nat) (i : nat) {struct fuel} : res (pr sel) :=                     (* :759 *)
+with p_seq (fuel : nat) (acc_pe : bool) (i : nat) {struct fuel} : res (pr sel) :=                     (* :759 *)
   match fuel with
   | O => OutOfFuel
   | S f =>
@@ -454,11 +454,11 @@ with p_seq (fuel : nat) (i : nat) {struct fuel} : res (pr sel) :=               
              let* two := slice 770 i (i + 2) in
              if str_eqb two [124; 42]%N then Ok (i + 2) else Ok i
            else Ok i) in
-        p_seq_loop f i [] []
-      else if N.eqb c 35 || N.eqb c 46 || N.eqb c 91 || N.eqb c 58 then p_seq_loop f i [] []
-      else bindP (parse_type_selector i) (fun r i => p_seq_loop f i [r] [])
+        p_seq_loop f acc_pe i [] []
+      else if N.eqb c 35 || N.eqb c 46 || N.eqb c 91 || N.eqb c 58 then p_seq_loop f acc_pe i [] []
+      else bindP (parse_type_selector i) (fun r i => p_seq_loop f acc_pe i [r] [])
   end
-with p_seq_loop (fuel : nat) (i : nat) (sels : list sel) (pe : str) {struct fuel} : res (pr sel) :=   (* :785 *)
+with p_seq_loop (fuel : nat) (acc_pe : bool) (i : nat) (sels : list sel) (pe : str) {struct fuel} : res (pr sel) :=   (* :785 *)
   match fuel with
   | O => OutOfFuel
   | S f =>
@@ -471,7 +471,7 @@ with p_seq_loop (fuel : nat) (i : nat) (sels : list sel) (pe : str) {struct fuel
       let* c := at_ 791 i in
       let add (ns : sel) (i : nat) :=
         match pe with
-        | [] => p_seq_loop f i (sels ++ [ns]) pe
+        | [] => p_seq_loop f acc_pe i (sels ++ [ns]) pe
         | _ => Ok PErr                                      (* :819 pseudo-element must be at the end *)
         end in
       if N.eqb c 35 then bindP (parse_id_selector i) add
@@ -482,7 +482,8 @@ with p_seq_loop (fuel : nat) (i : nat) (sels : list sel) (pe : str) {struct fuel
           match r with
           | PSel ns => add ns i
           | PElem name => match pe with
-                          | [] => p_seq_loop f i sels name
+                          | [] => if acc_pe then p_seq_loop f acc_pe i sels name
+                                  else Ok PErr              (* :814 pseudo-elements disabled (inside :is/:not/:has) *)
                           | _ => Ok PErr                    (* :811 only one pseudo-element *)
                           end
           end)
@@ -508,7 +509,7 @@ with p_pseudo (fuel : nat) (i : nat) {struct fuel} : res (pr pseudo_res) :=     
             match consume_paren i with
             | None => Ok PErr
             | Some i =>
-                bindP (p_group f i) (fun g i =>
+                bindP (p_group f false i) (fun g i =>
                   match consume_closing_paren i with
                   | None => Ok PErr
                   | Some i => Ok (POk (PSel (SRel rn g)) i)
@@ -544,7 +545,7 @@ Definition fuel_of : nat := 8 * len + 16.
 
 (* selector.go:49 ParseGroup: Some g, or None for an error *)
 Definition parse_group_at : res (option (list sel)) :=
-  match p_group fuel_of 0 with
+  match p_group fuel_of true 0 with
   | Ok (POk g i) => if i <? len then Ok None else Ok (Some g)
   | Ok PErr => Ok None
   | Panic x => Panic x
